@@ -105,14 +105,14 @@ Print Assumptions C05_blank_lines_start_nothing.
 (* The `start` predicates of the block model are the `start` methods of block_token.py as the source has them now:
    Gen/GenBlockStart.v is written from the source text on every run (harness/gen/gen_blockstart.py, Python ast, fails
    closed); the model's definitions are equal to it on every line, the class attributes Heading.start and
-   CodeFence.start leave behind for read() included (Proofs/BlockStartRegen.v). *)
+   CodeFence.start and HtmlBlock.start leave behind for read() included (Proofs/BlockStartRegen.v). *)
 From Mistletoe Require Import Model.Block Gen.GenBlockStart Proofs.BlockStartRegen.
 Theorem C05_block_starts_are_the_source : forall line,
   g_Quote_start line = quote_start line /\ g_Paragraph_start line = paragraph_start line /\
   g_BlockCode_start line = blockcode_start line /\ g_Table_start line = table_start line /\
   g_Footnote_start line = footnote_start line /\ g_ThematicBreak_start line = thematic_start line /\
   g_List_start line = list_start line /\ g_BlankLine_start line = blankline_start line /\
-  g_Heading_start line = heading_start line /\ g_CodeFence_start line = codefence_start line.
+  g_Heading_start line = heading_start line /\ g_CodeFence_start line = codefence_start line /\ g_HtmlBlock_start line = htmlblock_start line.
 Proof. exact block_starts_regenerated. Qed.
 Print Assumptions C05_block_starts_are_the_source.
 
